@@ -35,10 +35,11 @@ func storesToLookupField(fn *ssa.Function, field string) []*ssa.Store {
 func c10(c *Ctx) {
 	p, r := c.P, c.R
 	r.Technique = "must-pass-through (cut) checks around the only query-spawn site and around every lookup-ending exit; pairing of the in-flight counter's increments/decrements with spawns/consumed replies; exactly-one-reply path check of the query goroutine; bounded sorted insertion check; CAS-gated result and close-after-drain ordering of the content lookup"
-	r.Explanation = "Decides: (R1) the only site that spawns a query is reached only under !asked[id] of the node it queries and marks asked[id] = true first; the constructor marks the local id asked; (R2) the spawn loop is guarded by queries < alpha with alpha = 3 (strict), every spawn increments the in-flight counter in the same step, every reply consumed (in advance and in shutdown) decrements it, and the reply channel's capacity is alpha; (R3) the query goroutine sends exactly one reply on every path; (R4) results enter only through the sorted push whose growth is bounded by len < max with max = 16 and whose position comes from DistCmp against the target; nodes are pushed only when not seen (and marked seen); (R5) content lookup: the result send and cancel() happen only after a successful compare-and-swap 0->1 of the shared flag, the workers touch that flag through their pointer only with CompareAndSwap or Load (it stays a 0/1 flag for the owner's test), close(resultChannel) comes after run() has returned, and the result is read only after the collector goroutine was joined; (R6) a lookup step reports 'ended' only when no query is in flight: a constant false from the spawn step is returned only after shutdown cleared the query function, shutdown clears it only after draining one reply per in-flight query, and advance ends only when the spawn step said so; the timer pause for an empty table is not taken inside a loop. Not decided: termination and 'no closer seen node omitted' over all peer graphs and reply orders."
+	r.Explanation = "Decides: (R1) the only site that spawns a query is reached only under !asked[id] of the node it queries and marks asked[id] = true first; the constructor marks the local id asked; (R2) the spawn loop is guarded by queries < alpha with alpha = 3 (strict), every spawn increments the in-flight counter in the same step, every reply consumed (in advance and in shutdown) decrements it, and the reply channel's capacity is alpha; (R3) the query goroutine sends exactly one reply on every path; (R4) results enter only through the sorted push whose growth is bounded by len < max with max = 16 and whose position comes from DistCmp against the target; nodes are pushed only when not seen (and marked seen); (R5) content lookup: the result send and cancel() happen only after a successful compare-and-swap 0->1 of the shared flag, the workers touch that flag through their pointer only with CompareAndSwap or Load (it stays a 0/1 flag for the owner's test), close(resultChannel) comes after run() has returned, and the result is read only after the collector goroutine was joined; (R6) a lookup step reports 'ended' only when no query is in flight: a constant false from the spawn step is returned only after shutdown cleared the query function, shutdown clears it only after draining one reply per in-flight query, and advance ends only when the spawn step said so; the timer pause for an empty table is not taken inside a loop. The in-flight counter is exact (every store is the initial value, the seeding step, +1, or -1 after a received reply); the loop that pushes a reply's nodes has no exit but the end of the reply. Not decided: termination and 'no closer seen node omitted' over all peer graphs and reply orders."
 	r.Assumptions = []string{"enode.DistCmp orders by XOR distance", "sort.Search returns the insertion point", "atomic.CompareAndSwapInt32"}
 	r.Floor("R1.ask-once", 3)
 	r.Floor("R2.alpha-bound", 5)
+	r.Floor("R2.counter-exact", 4)
 	r.Floor("R3.one-reply", 2)
 	r.Floor("R4.bounded-result", 4)
 	r.Floor("R5.content-lookup", 4)
@@ -249,6 +250,7 @@ func c10(c *Ctx) {
 			r.Check(w == nil, "R2.alpha-bound", key+" decrements", p.Pos(core.InstrPos(rv)), "every reply taken off the channel decrements the in-flight counter before the step ends", "a reply can be consumed without decrementing the in-flight counter (the lookup then waits for a reply that never comes or over-spawns): "+p.PathString(w))
 		}
 	}
+	lookupCounterExact(c, "R2.counter-exact")
 	// reply channel capacity
 	{
 		ok := false
@@ -528,6 +530,15 @@ func c10(c *Ctx) {
 					okM := wb == nil || wa == nil
 					r.Check(okM, "R4.bounded-result", core.FuncName(fn)+" push-marks-seen", p.Pos(ci.Pos()), "a pushed node's id is added to the seen set", "a pushed node is not remembered as seen, so a later reply naming it again pushes it twice: "+p.PathString(wb))
 				}
+				// every node of a reply is looked at: the scan that pushes them runs to the end of
+				// the reply. Replies are in whatever order the peer chose, so leaving the scan at the
+				// first node that does not fit drops closer nodes listed after it
+				if loop, header := core.LoopOf(ci.Block()); header != nil {
+					we := core.LoopEarlyExit(fn, loop, header, func(prev, b *ssa.BasicBlock) bool { return prev != nil && !loop[b] })
+					r.Check(we == nil, "R4.bounded-result", core.FuncName(fn)+" whole-reply-scanned", p.Pos(ci.Pos()), "the loop that pushes a reply's nodes has no exit but the end of the reply", "the scan of a reply can stop before its end: a closer node listed after the point where it stops is never seen, pushed or queried (peers order their replies as they like): "+p.PathString(we))
+				} else {
+					r.Fail("R4.bounded-result", core.FuncName(fn)+" whole-reply-scanned", p.Pos(ci.Pos()), "the nodes of a reply are not pushed in a loop over the reply")
+				}
 			}
 		}
 	}
@@ -555,7 +566,42 @@ func c10(c *Ctx) {
 					return
 				}
 				nW++
-				r.Check(!core.InLoop(ci.Block()), "R6.ends-when-drained", core.FuncName(fn)+" pause-not-repeated", p.Pos(ci.Pos()), "the pause for an empty table is taken at most once per step", "the lookup pauses on a timer inside a loop: with an empty table (or peers that never show up) the lookup never finishes and never reports not-found, and cancelling it has no effect while it waits")
+				okOnce := !core.InLoop(ci.Block())
+				if !okOnce && cf != nil && core.InModule(cf) {
+					// the callee is called in a loop, but its wait belongs to a step that happens once:
+					// it is taken only while a lookup field still has its initial constant, and the
+					// step overwrites that field with another constant on every path that follows
+					// (the seeding step under queries == -1, which then sets queries = 1)
+					okOnce = true
+					for _, wi := range core.CallsTo(cf, "time.NewTimer", "time.Sleep", "time.After") {
+						once := false
+						for _, f := range core.DomFacts(wi.Block()) {
+							core.CmpFact(f, func(op token.Token, x, y ssa.Value) bool {
+								k, isC := core.ConstInt(y)
+								t, fld, ok := core.LoadedField(x)
+								if !isC || op != token.EQL || !ok || t != "lookup" {
+									return false
+								}
+								if core.MustPassAfter(wi, func(in ssa.Instruction) bool {
+									st, isSt := in.(*ssa.Store)
+									if !isSt {
+										return false
+									}
+									t2, f2, _, ok2 := core.FieldRef(st.Addr)
+									k2, isC2 := core.ConstInt(st.Val)
+									return ok2 && t2 == "lookup" && f2 == fld && isC2 && k2 != k
+								}) == nil {
+									once = true
+								}
+								return false
+							})
+						}
+						if !once || core.InLoop(wi.Block()) {
+							okOnce = false
+						}
+					}
+				}
+				r.Check(okOnce, "R6.ends-when-drained", core.FuncName(fn)+" pause-not-repeated", p.Pos(ci.Pos()), "the pause for an empty table is taken at most once per lookup", "the lookup pauses on a timer inside a loop: with an empty table (or peers that never show up) the lookup never finishes and never reports not-found, and cancelling it has no effect while it waits")
 			})
 		}
 		r.Count("lookup_timer_waits", nW)
